@@ -800,3 +800,27 @@ func (pe *pathEnum) walk(b *ssa.BasicBlock, pred *ssa.BasicBlock, env map[*ssa.P
 	}
 }
 
+
+// MapUpdateOn matches map updates whose map operand renders to a string
+// matching re (e.g. a local make(map[...]) or a field).
+func (p *Prog) MapUpdateOn(re string) IM {
+	rx := regexp.MustCompile("^(?:" + re + ")$")
+	return func(in ssa.Instruction) bool {
+		mu, ok := in.(*ssa.MapUpdate)
+		return ok && rx.MatchString(p.Render(mu.Map))
+	}
+}
+
+// IndexStoreOn matches stores to elements of a slice/array whose rendering
+// matches re.
+func (p *Prog) IndexStoreOn(re string) IM {
+	rx := regexp.MustCompile("^(?:" + re + ")$")
+	return func(in ssa.Instruction) bool {
+		st, ok := in.(*ssa.Store)
+		if !ok {
+			return false
+		}
+		ia, ok := st.Addr.(*ssa.IndexAddr)
+		return ok && rx.MatchString(p.Render(ia.X))
+	}
+}
